@@ -40,6 +40,7 @@ from __future__ import annotations
 import logging
 import multiprocessing
 import os
+import sys
 from concurrent.futures import Future, ProcessPoolExecutor, as_completed
 from pathlib import Path
 
@@ -50,6 +51,8 @@ from src.linter_config.ignore import get_ignore_parser
 from src.linter_config.loader import LinterConfigLoader
 
 from .language_detector import detect_language
+from .verif_tap import emit as _verif_emit
+from .verif_tap import fail as _verif_fail
 
 logger = logging.getLogger(__name__)
 
@@ -165,12 +168,15 @@ def _lint_file_worker(args: tuple[Path, Path, dict]) -> list[dict]:
     """
     file_path, project_root, config = args
     try:
+        _verif_emit("worker", path=str(file_path))
         # Create isolated orchestrator for this worker process
         orchestrator = Orchestrator(project_root=project_root, config=config)
         violations = orchestrator.lint_file(file_path)
+        _verif_emit("worker_done", path=str(file_path), n=len(violations))
         # Convert to dicts for pickling
         return [v.to_dict() for v in violations]
     except Exception:
+        _verif_fail("worker", "*", file_path, sys.exc_info()[1])
         logger.exception("Worker error processing file: %s", file_path)
         return []
 
@@ -284,12 +290,15 @@ class Orchestrator:  # thailint: ignore[srp]
         """
         # Fast path: skip compiled files and common excluded directories
         if _is_hardcoded_excluded(file_path):
+            _verif_emit("lint_file", path=str(file_path), decision="excluded")
             return []
 
         if self.ignore_parser.is_ignored(file_path):
+            _verif_emit("lint_file", path=str(file_path), decision="ignored")
             return []
 
         language = detect_language(file_path)
+        _verif_emit("lint_file", path=str(file_path), decision="linted", language=language)
         rules = self._get_rules_for_file(file_path, language)
 
         # Add project_root to metadata for rules that need it (e.g., DRY linter cache)
@@ -312,9 +321,11 @@ class Orchestrator:  # thailint: ignore[srp]
         for file_path in file_paths:
             violations.extend(self.lint_file(file_path))
 
+        _verif_emit("finalize_begin", n=len(violations))
         # Call finalize() on all rules after processing all files
         for rule in self.registry.list_all():
             violations.extend(rule.finalize())
+        _verif_emit("finalize_end", n=len(violations))
 
         return violations
 
@@ -333,6 +344,9 @@ class Orchestrator:  # thailint: ignore[srp]
         violations = []
         for rule in rules:
             rule_violations = self._safe_check_rule(rule, context)
+            _verif_emit(
+                "check", rule=rule.rule_id, path=str(context.file_path), n=len(rule_violations)
+            )
             violations.extend(rule_violations)
         return violations
 
@@ -344,6 +358,7 @@ class Orchestrator:  # thailint: ignore[srp]
             # Re-raise configuration validation errors (these are user-facing)
             raise
         except Exception:
+            _verif_fail("check", rule.rule_id, context.file_path, sys.exc_info()[1])
             logger.exception("Rule %s failed on %s", rule.rule_id, context.file_path)
             return []
 
@@ -364,9 +379,11 @@ class Orchestrator:  # thailint: ignore[srp]
         for file_path in file_paths:
             violations.extend(self.lint_file(file_path))
 
+        _verif_emit("finalize_begin", n=len(violations))
         # Call finalize() on all rules after processing all files
         for rule in self.registry.list_all():
             violations.extend(rule.finalize())
+        _verif_emit("finalize_end", n=len(violations))
 
         return violations
 
@@ -392,10 +409,16 @@ class Orchestrator:  # thailint: ignore[srp]
 
         # For small file counts, sequential is faster due to process overhead
         if len(file_paths) < effective_workers * 2:
+            _verif_emit(
+                "parallel", mode="fallback", workers=effective_workers, nfiles=len(file_paths)
+            )
             return self.lint_files(file_paths)
 
+        _verif_emit("parallel", mode="pool", workers=effective_workers, nfiles=len(file_paths))
         violations = self._execute_parallel_linting(file_paths, effective_workers)
+        _verif_emit("finalize_begin", n=len(violations))
         violations.extend(self._finalize_rules())
+        _verif_emit("finalize_end", n=len(violations))
         return violations
 
     def _execute_parallel_linting(
@@ -406,12 +429,14 @@ class Orchestrator:  # thailint: ignore[srp]
 
         with ProcessPoolExecutor(max_workers=max_workers) as executor:
             futures = [executor.submit(_lint_file_worker, item) for item in work_items]
+            _verif_emit("submit", paths=[str(item[0]) for item in work_items])
             return self._collect_parallel_results(futures)
 
     def _collect_parallel_results(self, futures: list[Future[list[dict]]]) -> list[Violation]:
         """Collect results from parallel futures."""
         violations: list[Violation] = []
         for future in as_completed(futures):
+            _verif_emit("done", i=futures.index(future))
             violations.extend(self._extract_violations_from_future(future))
         return violations
 
@@ -420,6 +445,7 @@ class Orchestrator:  # thailint: ignore[srp]
         try:
             return [Violation.from_dict(d) for d in future.result()]
         except Exception:
+            _verif_fail("future", "*", "", sys.exc_info()[1])
             logger.exception("Error extracting violations from worker future")
             return []
 
